@@ -171,6 +171,33 @@ func items(tier string) []item {
 		add(2, mk("E/shutdown-two", 15, "sleep120", "shutdown", 5, c0idle, c1par))
 		add(1, mk("E/three", 15, "instant", "shutdown", 8, c0idle, c1late, []string{"quiesce", "dial", "send", "recv", "close"}))
 	}
+	// K: the systematic two-client product - script shapes x every controller position x shutdown / cancel
+	{
+		shapes := [][]string{s1, c0idle, s3, {"dial", "send", "close"}}
+		second := [][]string{c1par, c0idle, s3, c1late}
+		for _, cb := range []int{15, 0} {
+			for _, h := range []string{"instant", "sleep10"} {
+				for i, a := range shapes {
+					for j, b := range second {
+						total := len(a) + len(b)
+						for _, ctl := range []string{"shutdown", "cancel"} {
+							for at := 0; at <= total; at++ {
+								if !thorough && (at%2 == 1 || (h == "sleep10" && cb == 0)) {
+									continue
+								}
+								d := 1
+								if thorough && ctl == "shutdown" && h == "sleep10" && cb == 15 {
+									d = 2
+								}
+								add(d, mk(fmt.Sprintf("K/%d-%d/%s@%d", i, j, ctl, at), cb, h, ctl, at, a, b))
+							}
+						}
+						add(1, mk(fmt.Sprintf("K/%d-%d/none", i, j), cb, h, "none", 0, a, b))
+					}
+				}
+			}
+		}
+	}
 	// F: a panicking handler on one connection, a normal exchange on the other (shared with C16)
 	for _, cb := range []int{15, 0} {
 		sc := mk("F/panic-other-continues", cb, "instant", "none", 0, c0idle, c1late)
